@@ -152,7 +152,9 @@ inst!(g4_two_rfind, [props=C02 xprops=C05+C14 tier=quick cfg=x86std t=900 role=g
     generic::find::<4, 27>(2, true, 24));
 inst!(g4_three_rfind, [props=C02+C05 xprops=C14 tier=quick cfg=x86std t=900 role=generic-4lane-rfind], 7,
     generic::find::<4, 27>(3, true, 24));
-inst!(g4_one_count, [props=C07+C05+C14 tier=quick cfg=x86std t=900 role=generic-4lane-count], 41,
+inst!(g4_one_count, [props=C07+C05+C14 tier=quick cfg=x86std t=900 role=generic-4lane-count uw=count_raw.0:3;count_raw.1:5;byte_by_byte:6;oracle::count:32], 6,
+    generic::count::<4, 33>(30));
+inst!(g4_one_count_40, [props=C07 xprops=C05+C14 tier=thorough cfg=x86std t=3600 role=generic-4lane-count uw=count_raw.0:4;count_raw.1:5;byte_by_byte:6;oracle::count:42], 6,
     generic::count::<4, 43>(40));
 
 // 2 lanes and 8 lanes (thorough).
@@ -599,8 +601,8 @@ inst!(avx2_three_raw, [props=C01 xprops=C05+C14 tier=quick cfg=x86std t=1800 rol
 inst!(avx2_three_rraw, [props=C02 xprops=C05+C14 tier=thorough cfg=x86std t=1800 role=avx2-raw uw=rfind_raw.0:2;rfind_raw.1:4;byte_by_byte:17], 3,
     x86::raw::<40>(1, 3, true));
 #[cfg(any(vcfg_x86std, vcfg_x86none, vcfg_x86alloc, vcfg_x86avx2, vcfg_x86rel))]
-inst!(sse2_one_count, [props=C07+C05 xprops=C14 tier=quick cfg=x86std t=1800 role=sse2-count uw=count_raw.0:2;count_raw.1:4;byte_by_byte:17;oracle::count:36], 3,
-    x86::count::<49>(0, 0, 34, 16));
+inst!(sse2_one_count, [props=C07+C05 xprops=C14 tier=quick cfg=x86std t=1800 role=sse2-count uw=count_raw.0:2;count_raw.1:4;byte_by_byte:17;oracle::count:26], 3,
+    x86::count::<39>(0, 0, 24, 16));
 #[cfg(any(vcfg_x86std, vcfg_x86none, vcfg_x86alloc, vcfg_x86avx2, vcfg_x86rel))]
 inst!(avx2_one_count_28_36, [props=C07 xprops=C05+C14 tier=thorough cfg=x86std t=1800 role=avx2-count uw=count_raw.0:2;count_raw.1:3;byte_by_byte:33;oracle::count:38], 3,
     x86::count::<67>(1, 28, 36, 32));
